@@ -20,6 +20,9 @@ LOCK = os.path.join(LEAN, ".build.lock")
 ALLOWED_AXIOMS = {"propext", "Classical.choice", "Quot.sound"}
 FORBIDDEN = re.compile(r"\b(sorry|admit|native_decide|bv_decide|implemented_by|unsafe)\b|^\s*axiom\s|maxHeartbeats\s+0")
 
+import logging  # noqa: E402
+
+logging.getLogger("ibicus").setLevel(logging.CRITICAL)  # the library logs every failsafe / fallback event
 os.environ["IBICUS_VERIF"] = "1"  # hooks on for every run of the real code
 os.environ.setdefault("OMP_NUM_THREADS", "1")
 if os.path.realpath(REPO) != "/repo":
